@@ -246,7 +246,7 @@ P = {
         "findings": {},
     }, {
         "name": "race", "pkg": "./internal/rules/mechanisms", "test": "TestVerifC17Race", "overlay": OVERLAY,
-        "eval_module": "Run.Eval_C17", "check_term": "check_race", "n_quick": 48, "n_thorough": 600, "shard": 400,
+        "eval_module": "Run.Eval_C17", "check_term": "check_race", "n_quick": 200, "n_thorough": 2400, "shard": 400,
         "findings": {}, "race": True, "escalate": False,
     }],
     "rule": "stream variants: catalogue of 1-2 prototypes of one of the 19 mechanism types (weighted to those with maps/slices/endpoints) "
